@@ -142,6 +142,11 @@ pub fn run(tier: Tier) -> i32 {
                 return;
             }
             let wq = |qi: usize| -> &Vec<f64> { q[qi].unwrap_or(&eq) };
+            {
+                let labs0: Vec<jlabel::Label> = label_sets[0].iter().map(|l| labels::parse(l)).collect();
+                let m0 = Models::new(&labs0, &e.voices, e.condition.get_interporation_weight());
+                rep.outcome(fnv(format!("{:?}{:?}", m0.duration(), m0.model_stream(1).stream.first()).as_bytes()));
+            }
             let mut wr = 0.0f64;
             let mut fail: Option<String> = None;
             'outer: for ls in &label_sets {
